@@ -6,7 +6,7 @@ import (
 )
 
 func cmdDump(args []string) int {
-	e, err := LoadEngine([]string{".", "./terminfo", "./views"}, nil)
+	e, err := LoadEngine(devPatterns())
 	if err != nil {
 		fmt.Println(err)
 		return 3
